@@ -198,10 +198,16 @@ def fill_points(rng, case):
     sh = case["shape"]
     L = sc.shape_L(sh)
     tau = 1e-9 * L
-    n = rng.choice([1, 2, 5, 16, 64])
+    n = rng.choice([1, 2, 5, 16, 16, 40])
     e = extent(sh)
     pts, cls = [], []
     feats = feature_points(sh)
+    # the exact features of the shape (centre, points on the axis, apex, rim, corners, slab points) are
+    # asked in every case with at least 16 points, a random half of them otherwise
+    chosen = feats if n >= 16 else rng.sample(feats, max(1, len(feats) // 2))
+    for k in chosen[:n]:
+        pts.append(to_world(sh, k))
+        cls.append("feature")
     while len(pts) < n:
         r = rng.random()
         if sh.get("stream") == "exact":
@@ -230,10 +236,10 @@ def fill_points(rng, case):
 
 
 def gen_cases(rng, tier):
-    per = 14 if tier == "quick" else 120
+    per = 8 if tier == "quick" else 90
     cases = []
     for kind in KINDS:
-        for stream, share in (("random", 1.0), ("lattice", 0.6), ("exact", 0.6)):
+        for stream, share in (("random", 1.0), ("lattice", 0.6), ("exact", 0.6), ("near", 0.3)):
             for _ in range(int(per * share)):
                 cases.append(gen_case(rng, kind, stream))
     rng.shuffle(cases)
@@ -287,6 +293,10 @@ def judge_case(case, r, classes):
     if "exc" in r:
         return [f"{name} raised {r['exc']}: {r.get('exc_msg', '')}"]
     fails = []
+    if r.get("args_modified"):
+        fails.append(f"{name} modifies its argument(s) number {r['args_modified']} (0 = points, 1.. = shape parameters) in place")
+    if r.get("second_call_same") is False:
+        fails.append(f"{name}: a second call with the very same argument objects returns a different answer")
     for i, (p, c, b) in enumerate(zip(case["points"], classes, r["contained"])):
         if c == "in" and not b:
             fails.append(f"{name}: point {i} = {p} lies at least 1e-9*L inside but the predicate says False ({case['pt_cls'][i]})")
